@@ -19,8 +19,8 @@
 //   un:K:W                 what = BEGIN_PR_COMMANDS+W, a code the server bounces with PR_RESULT_ERRORUNIMPLEMENTED
 //   dn:K:W                 what = BEGIN_PR_COMMANDS+W, a privileged command -> PR_RESULT_ERRORACCESSDENIED
 //   jr:K:pat&pat@f         PR_COMMAND_JETTISONRESULTS   (jr:K:-  = no PR_NAME_KEYS field: everything)
-//   jt:K:id&id             PR_COMMAND_JETTISONDATATREES (jt:K:-  = no PR_NAME_TREE_REQUEST_ID field)
-//   gt:K:ID:pat&pat@f      PR_COMMAND_GETDATATREES with request id ID ('-' = none)
+//   jt:K:id&id             PR_COMMAND_JETTISONDATATREES (jt:K:-  = no PR_NAME_TREE_REQUEST_ID field; #N = the field as int32 N: wrong type)
+//   gt:K:ID:pat&pat@f      PR_COMMAND_GETDATATREES with request id ID ('-' = none, #N = int32 N: wrong type)
 //   b:K:sub+sub            PR_COMMAND_BATCH of the commands above written with '~' (s~F~items jr~pats pi~T ...)
 //   nb:K:D:sub             the sub-command wrapped in D nested PR_COMMAND_BATCH Messages
 //   M:K:<msg>              (flood stream) an arbitrary structurally valid Message, see ParseMsg below
@@ -374,13 +374,21 @@ static MessageRef BuildCommand(Ctx & c, int K, const std::string & code, const s
       MessageRef m = MkMsg(PR_COMMAND_JETTISONDATATREES);
       if ((fs.size() > 0)&&(fs[0] == "-")) return m;
       std::vector<std::string> ids = Items(fs, 0);
-      for (size_t i=0; i<ids.size(); i++) (void) m()->AddString(PR_NAME_TREE_REQUEST_ID, ids[i].c_str());
+      for (size_t i=0; i<ids.size(); i++)
+      {
+         if ((!ids[i].empty())&&(ids[i][0] == '#')) (void) m()->AddInt32(PR_NAME_TREE_REQUEST_ID, (int32) atol(ids[i].c_str()+1));   // wrong type: no string field
+                                               else (void) m()->AddString(PR_NAME_TREE_REQUEST_ID, ids[i].c_str());
+      }
       return m;
    }
    if (code == "gt")
    {
       MessageRef m = MkMsg(PR_COMMAND_GETDATATREES);
-      if ((fs.size() > 0)&&(fs[0] != "-")) (void) m()->AddString(PR_NAME_TREE_REQUEST_ID, fs[0].c_str());
+      if ((fs.size() > 0)&&(fs[0] != "-"))
+      {
+         if (fs[0][0] == '#') (void) m()->AddInt32(PR_NAME_TREE_REQUEST_ID, (int32) atol(fs[0].c_str()+1));   // wrong type: the reply carries no id
+                         else (void) m()->AddString(PR_NAME_TREE_REQUEST_ID, fs[0].c_str());
+      }
       AddKeys(w, *m(), Items(fs, 1));
       return m;
    }
